@@ -435,3 +435,38 @@ Proof.
       rewrite (proj2 (g_path bd j _ Hext Honly x0 Hx0)). exact Hp0.
     + exists D'. split; [exact HD'|eapply files_ext_trans; eassumption].
 Qed.
+
+(* ------------------------------------------------------------------ a concrete sequence of deep edits *)
+(* object Foo { field x array { items object { field kind enum { A } } }  object Sub { field q string } }
+   + a field inside the inline object of the array items, an option of the inline enum inside
+   it, a field of the nested declaration Sub, a new nested enum of Foo *)
+Definition w_deep : bundle :=
+  [BJ (mkJfile [b "foo"; b "v1"] (b "a") []
+     [EObject (b "Foo")
+        (mkprops [Property (b "x") false false
+                    (FArray (FObjInline [] (mkprops [Property (b "kind") false false (FEnumInline (mkEnum [] [] [b "A"]))])))])
+        (mknesteds [NObject (b "Sub") (mkprops [Property (b "q") false false (FScalar SString)]) NNil])])].
+
+Definition w_deep_edits : list edit :=
+  [EAppendIn 0 0 AtDecl [SInline 0] (AField (Property (b "deep") false false (FScalar SString)));
+   EAppendIn 0 0 AtDecl [SInline 0; SInline 0] (AOption (b "B"));
+   EAppendIn 0 0 AtDecl [SNested 0] (AField (Property (b "r") false false (FScalar SBool)));
+   EAppendIn 0 0 AtDecl [] (ASub (NEnum (mkEnum (b "Extra") [] [b "ONE"])))].
+
+Lemma deep_edits_preserve :
+  exists D D', compile w_deep (b "foo.v1") = Ok D /\
+               compile (apply_edits w_deep w_deep_edits) (b "foo.v1") = Ok D' /\
+               files_ext D D' /\ D' <> D.
+Proof.
+  assert (Hc : exists D, compile w_deep (b "foo.v1") = Ok D) by (eexists; vm_compute; reflexivity).
+  destruct Hc as [D Hc].
+  assert (Hseq : seq_ok w_deep w_deep_edits).
+  { cbn [seq_ok w_deep_edits].
+    repeat (split; [eexists; split; [reflexivity|exact I]|split; [vm_compute; reflexivity|]]). exact I. }
+  destruct (c13_full w_deep_edits w_deep (b "foo.v1") D) as (D' & Hc' & Hext); try assumption.
+  - vm_compute. reflexivity.
+  - intros x [<-|[]]. vm_compute. discriminate.
+  - eexists. split; [left; reflexivity|vm_compute; reflexivity].
+  - exists D, D'. repeat split; try assumption.
+    intros ->. vm_compute in Hc, Hc'. pose proof (eq_trans Hc (eq_sym Hc')) as E. discriminate E.
+Qed.
